@@ -169,6 +169,8 @@ class Program:
                 if sub in self.modules:
                     return ("module", sub)
                 return None
+            if sub in self.modules:
+                return ("module", sub)
             if base.split(".")[0] == self.pkgname:
                 return None
             return ("extern", sub)
